@@ -241,6 +241,9 @@ func (ev *Env) resolveSpecType(txt string) (types.Type, string) {
 		return types.Typ[types.Bool], "Bool"
 	case "string":
 		return types.Typ[types.String], fc.strSort()
+	case "bytes":
+		// []byte (the expression grammar has no slice-type syntax); usable as a dynamic-type name in tagis
+		return types.NewSlice(types.Universe.Lookup("byte").Type()), "Int"
 	case "byte", "uint8":
 		return types.Typ[types.Uint8], fc.sortOf(types.Typ[types.Uint8])
 	case "uint64":
